@@ -163,6 +163,23 @@ func suiteC10(s *Suite, rng *Rng, tier string) {
 				}
 				mut("event-E+2", func(u *revocation.Update) { u.Events[i].E.Add(u.Events[i].E, bi(2)) }, false)
 				mut("event-E=1", func(u *revocation.Update) { u.Events[i].E = bi(1) }, false)
+				// an event without its value, or no event at all in a position (what a JSON null decodes to): outside the
+				// model's vocabulary, so checked by the oracle only: rejected, and not with a panic
+				for _, nk := range []string{"event-E=nil", "event=nil"} {
+					u := cloneUpdate(base)
+					if nk == "event=nil" {
+						u.Events[i] = nil
+					} else {
+						u.Events[i].E = nil
+					}
+					out, ok := outcomeOf(func() error { _, err := u.Verify(kp.Pk); return err })
+					s.Dist["verify:"+nk]++
+					if ok {
+						s.Violate("C10:altered-update-accepted", "Update.Verify accepted an update with a missing event or event value: "+nk, L{nk, i})
+					} else if out.(L)[0] == 2 {
+						s.Violate("C10:update-verify-panicked", "Update.Verify panicked: "+nk, L{nk, i})
+					}
+				}
 				mut("event-index+1", func(u *revocation.Update) { u.Events[i].Index++ }, false)
 				mut("event-index-1", func(u *revocation.Update) { u.Events[i].Index-- }, false)
 				// the parent hash of the first event of a window is not covered by the chain check
